@@ -93,6 +93,23 @@ fn gen_stream(t: &mut Tape, dialect: Dialect, identity: &[String]) -> (Vec<u8>, 
     let mut used_paths: Vec<String> = Vec::new();
     for _ in 0..nfiles {
         let mut path = gen_path(t, plain);
+        // two files whose names differ only in the case of a letter (xt_DSCP.h / xt_dscp.h,
+        // Makefile / makefile) are two files
+        if let Some(prev) = used_paths.last() {
+            if t.chance(1, 6) {
+                let flipped: String = match prev.rfind(|c: char| c.is_ascii_alphabetic()) {
+                    Some(i) => {
+                        let c = prev[i..].chars().next().unwrap();
+                        let f = if c.is_ascii_lowercase() { c.to_ascii_uppercase() } else { c.to_ascii_lowercase() };
+                        format!("{}{}{}", &prev[..i], f, &prev[i + 1..])
+                    }
+                    None => prev.clone(),
+                };
+                if &flipped != prev {
+                    path = flipped;
+                }
+            }
+        }
         while used_paths.contains(&path) {
             path = format!("n/{}", path);
         }
